@@ -400,4 +400,4 @@ def run(ctx) -> None:
     ctx.exhaustive("all-paths-x-forms", MOD, "exh_shard", [(i, nsh, depth) for i in range(nsh)],
                    f"{n_slots} statement-list slots; every nesting path of depth <= {depth} x {len(FORM_NAMES)} import forms"
                    + ("" if quick else f" (depth 3 restricted to forms {sorted(THOROUGH_DEPTH3_FORMS)})"))
-    ctx.random("random-projects", MOD, "strategy", "check_case", 4000 if quick else 60000)
+    ctx.random("random-projects", MOD, "strategy", "check_case", 4000 if quick else 150000)
